@@ -132,3 +132,74 @@ Section Names.
     | None => None
     end.
 End Names.
+
+(* ---------------------------------------------------------------- modules
+   path.import_path: the module object for a task file is looked up in sys.modules under a
+   name DERIVED from the path; different paths can derive the same name. *)
+Definition dot : N := 46. Definition underscore : N := 95.
+
+(* _module_name_from_path: components relative to the root, "." -> "_", joined by "." *)
+Definition norm_comp (c : comp) : comp := map (fun x => if N.eqb x dot then underscore else x) c.
+Definition modname_plain (p : path) : list comp := map norm_comp p.
+
+(* _resolve_pkg_root_and_module_name: when the directory of the file is a package
+   (has __init__.py), climb while the parent is a package; the name is the path relative to
+   the package root's parent (no replacement of dots).  [is_pkg d] for a directory path d. *)
+Fixpoint climb (is_pkg : path -> bool) (fuel : nat) (dir : path) : path :=
+  match fuel with
+  | O => dir
+  | S f => match rev dir with
+           | [] => dir
+           | _ :: rparent => let parent := rev rparent in
+                             if is_pkg parent then climb is_pkg f parent else dir
+           end
+  end.
+
+Definition dir_of (p : path) : path := removelast p.
+
+Definition modname (is_pkg : path -> bool) (p : path) : list comp :=
+  let d := dir_of p in
+  if is_pkg d then
+    let top := climb is_pkg (length d) d in          (* the outermost package directory *)
+    skipn (length top - 1) p                         (* relative to its parent *)
+  else modname_plain p.
+
+
+(* sys.modules as far as task files are concerned: derived name -> file it was loaded from *)
+Definition mcache := list (list comp * path).
+
+Fixpoint mc_get (k : list comp) (m : mcache) : option path :=
+  match m with
+  | [] => None
+  | (k', v) :: r => if eqbP k k' then Some v else mc_get k r
+  end.
+
+Fixpoint mc_set (k : list comp) (v : path) (m : mcache) : mcache :=
+  match m with
+  | [] => [(k, v)]
+  | (k', v') :: r => if eqbP k k' then (k, v) :: r else (k', v') :: mc_set k v r
+  end.
+
+(* import_path for one file: which file's code the returned module object holds.
+   A cached module is reused only if it was loaded from this very file. *)
+Definition import_one (is_pkg : path -> bool) (m : mcache) (p : path) : path * mcache :=
+  let k := modname is_pkg p in
+  match mc_get k m with
+  | Some f => if eqbP f p then (f, m) else (p, mc_set k p m)
+  | None => (p, mc_set k p m)
+  end.
+
+Fixpoint import_all (is_pkg : path -> bool) (m : mcache) (ps : list path) : list (path * path) :=
+  match ps with
+  | [] => []
+  | p :: r => let '(f, m') := import_one is_pkg m p in (p, f) :: import_all is_pkg m' r
+  end.
+
+(* the behaviour before the repair (kept for the regression witness): any cached module of
+   that name is reused *)
+Definition import_one_old (is_pkg : path -> bool) (m : mcache) (p : path) : path * mcache :=
+  let k := modname is_pkg p in
+  match mc_get k m with
+  | Some f => (f, m)
+  | None => (p, mc_set k p m)
+  end.
